@@ -201,6 +201,9 @@ class ExecResolve(ExecCall):
         for n, k in c.params.items():
             if n not in bound:
                 raise EngineError(f"contract {c.name}: parameter {n} not bound")
+            bk_ = w.base_kind(k)
+            if isinstance(bound[n], VDict) and isinstance(bk_, tuple) and bk_[0] == "dict":
+                bound[n] = self.materialize_dict(st, bound[n], bk_)
             env[n] = self.coerce_param(bound[n], k)
         callid = self.next_call_id(f"pre:{c.name}")
         spec_call = self.spec_mode > 0
